@@ -122,6 +122,14 @@ func Load(o LoadOpts) (*World, error) {
 				kind = "carrier struct split into one local per field: "
 			}
 			if len(subs) == 0 {
+				ov, subs = w.coalesceCopies(o.Overlay)
+				kind = "a fresh object built under a new name is built under the name it is copied to: "
+			}
+			if len(subs) == 0 {
+				ov, subs = w.switchesToIfs(o.Overlay)
+				kind = "tagless switch written as an if chain in "
+			}
+			if len(subs) == 0 {
 				ov, subs = w.unrollLiteralRanges(o.Overlay)
 				kind = "range over a literal unrolled in "
 			}
